@@ -45,6 +45,7 @@ type ReaderPlan struct {
 	ErrAt       int64  `json:"err_at"` // byte offset at which Read fails; <0 = never
 	Errno       string `json:"errno"`
 	EOFWithData bool   `json:"eof_with_data"` // last data chunk is returned together with io.EOF
+	ZeroEvery   int    `json:"zero_every"`    // every n-th Read returns (0, nil) first (legal, if discouraged, io.Reader behaviour)
 }
 
 // WriterPlan shapes one output stream.
@@ -308,6 +309,7 @@ type planReader struct {
 	calls  int
 	polls  int
 	done   error
+	zeroed bool
 }
 
 func (c *planController) Reader(stream, name string, r io.Reader) io.Reader {
@@ -348,6 +350,12 @@ func (r *planReader) Read(p []byte) (int, error) {
 	if len(p) == 0 {
 		return 0, nil
 	}
+	if r.plan.ZeroEvery > 0 && !r.zeroed && (r.calls+1)%r.plan.ZeroEvery == 0 {
+		r.zeroed = true
+		r.c.emit("read", r.site, r.calls, "zero", "0", false, false)
+		return 0, nil
+	}
+	r.zeroed = false
 	r.calls++
 	n := len(p)
 	if len(r.plan.Chunks) > 0 {
